@@ -429,6 +429,71 @@ fn body(ch: &Ch) -> Run {
   run
 }
 
+/// Which URLs belong to which registry package: every URL assembled from small
+/// component alphabets (look-alike authorities, short / odd paths) against a
+/// reference that compares origin and path segments.
+fn body_urls(ch: &Ch) -> Run {
+  use deno_graph::source::JsrUrlProvider;
+  let mut run = Run::default();
+  const SCHEMES: &[&str] = &["https", "http"];
+  const AUTHORITIES: &[&str] = &["jsr.io", "jsr.io.evil.com", "jsr.io:8443", "jsr.io:443", "x.jsr.io", "jsr.iox", "jsr.io@evil.com", "JSR.IO", "jsr.io."];
+  const SEGS: &[&str] = &["@s", "a", "ab", "1.0.0", "1.0.0-beta.1", "v1", "mod.ts", "", "%40s"];
+  let scheme = SCHEMES[ch.shape("scheme", SCHEMES.len())];
+  let authority = AUTHORITIES[ch.shape("authority", AUTHORITIES.len())];
+  let n = ch.shape("path_segments", 5);
+  let mut segs = vec![];
+  for _ in 0..n {
+    segs.push(SEGS[ch.shape("segment", SEGS.len())]);
+  }
+  let text = format!("{scheme}://{authority}/{}", segs.join("/"));
+  let Ok(u) = deno_graph::ModuleSpecifier::parse(&text) else {
+    run.state_key = hash_of(&text);
+    return run;
+  };
+  run.evals = 1;
+  let provider = deno_graph::source::DefaultJsrUrlProvider;
+  let got = provider.package_url_to_nv(&u).map(|nv| nv.to_string());
+  // reference: same origin as the registry (scheme https, host jsr.io, default
+  // port, no credentials), and the first three path segments are scope, name
+  // and a semver version
+  let same_origin = u.scheme() == "https" && u.host_str() == Some("jsr.io") && u.port().is_none() && u.username().is_empty() && u.password().is_none();
+  // (the path begins after the registry URL's own slash; one further empty
+  // segment is tolerated, as the conversion documents)
+  let after_base = &u.path()[1..];
+  let path_segs: Vec<&str> = after_base.strip_prefix('/').unwrap_or(after_base).split('/').collect();
+  let want = if same_origin && path_segs.len() >= 3 && deno_semver::Version::parse_standard(path_segs[2]).is_ok() {
+    Some(format!("{}/{}@{}", path_segs[0], path_segs[1], deno_semver::Version::parse_standard(path_segs[2]).unwrap()))
+  } else {
+    None
+  };
+  if got != want {
+    run.violate(
+      if want.is_none() { "url-attributed-to-a-package-it-does-not-belong-to" } else { "registry-url-not-attributed-to-its-package" },
+      format!("package_url_to_nv({u}) = {got:?}, expected {want:?}"),
+      json!({"url": u.as_str(), "written_as": text}),
+    );
+  }
+  // round trip for well-formed names: name@version -> package URL -> name@version
+  if let Some(nv) = provider.package_url_to_nv(&u)
+    && nv.name.starts_with('@')
+    && nv.name.split('/').count() == 2
+    && !nv.name.ends_with('/')
+  {
+    let base = provider.package_url(&nv);
+    let back = provider.package_url_to_nv(&base);
+    if back.as_ref() != Some(&nv) {
+      run.violate("package-url-round-trip-fails", format!("{nv} -> {base} -> {back:?}"), json!({"url": u.as_str()}));
+    }
+  }
+  run.state_key = hash_of(&u.as_str());
+  run.nontrivial = want.is_some() || authority != "jsr.io";
+  run.outcome_key = hash_of(&want);
+  if ch.describe() {
+    run.sample = Some(json!({"url": u.as_str(), "expected": want}));
+  }
+  run
+}
+
 pub fn prop(tier: Tier) -> Prop {
   let modes = match tier {
     Tier::Quick => vec![Mode::Deviations(1), Mode::Deviations(2), Mode::Deviations(3)],
@@ -446,6 +511,12 @@ pub fn prop(tier: Tier) -> Prop {
       body: Box::new(body),
       modes,
       what: "registries x importing programs against reference bookkeeping",
+    },
+    Part {
+      name: "url-mapping",
+      body: Box::new(body_urls),
+      modes: vec![Mode::Full],
+      what: "every URL from 2 schemes x 9 look-alike authorities x paths of <= 4 segments over 9 segment texts: package_url_to_nv against an origin + segment reference, and the round trip through package_url",
     }],
     termination_property: false,
     min_outcomes: 8,
